@@ -18,8 +18,8 @@ CONSTANTS
   PortFaults = FALSE
   Cuts = FALSE
   MaxNow = 0
-  MaxLevel = 14
-  Pipe = FALSE
+  MaxLevel = 13
+  Pipe = TRUE
   MaxDin = 3
 INIT MCInit
 NEXT MCNext
